@@ -109,3 +109,28 @@ Proof.
   rewrite (tet_geodesic_field_is_gradient_of_unit_slope v ts a b0 (vfun Rops fl) Ha Hg Hf).
   apply tet_div_grad_is_minus_A; assumption.
 Qed.
+
+(* ---- the hypotheses of the tetrahedral theorems hold for a concrete mesh: the unit tetrahedron, f = x *)
+Definition ex_v : list V3 := [(0, 0, 0); (1, 0, 0); (0, 1, 0); (0, 0, 1)].
+Definition ex_ts : list tet := [(0, 1, 2, 3)%nat].
+Lemma ex_guard : Forall (tet_guard_off ex_v) ex_ts.
+Proof.
+  repeat constructor. unfold tet_guard_off, tet_pts, ex_v, getv. cbn [nth]. apply Rltb_false.
+  replace (dotR (subR (0, 0, 1) (0, 0, 0)) (crossR (subR (1, 0, 0) (0, 0, 0)) (subR (0, 0, 0) (0, 1, 0)))) with (-(1)) by (unfv; ring).
+  rewrite Rabs_Ropp, Rabs_R1. pose proof eps52_pos. unfold eps52, frac in *. cbn [div ofZ Rops] in *. lra.
+Qed.
+Lemma ex_nondeg : tet_nondeg ex_v ex_ts.
+Proof.
+  repeat constructor. apply Reqb_false. unfold tetra_vol6_raw, tet_edges, tet_pts, ex_v, getv. cbn [nth absK Rops].
+  replace (dot Rops (vsub Rops (0, 0, 1) (0, 0, 0)) (cross Rops (vsub Rops (1, 0, 0) (0, 0, 0)) (vsub Rops (0, 0, 0) (0, 1, 0)))) with (-(1)) by (unfv; ring).
+  rewrite Rabs_Ropp, Rabs_R1. lra.
+Qed.
+Lemma ex_affine : Forall (affine_on_tet ex_v (1, 0, 0) 0 (vfun Rops [0; 1; 0; 0])) ex_ts.
+Proof. repeat constructor; unfold vfun, ex_v, getv; cbn [nth zero Rops]; unfv; ring. Qed.
+Lemma ex_dir : (1, 0, 0) <> ((0, 0, 0) : V3).
+Proof. intros H. inversion H. lra. Qed.
+Theorem tet_affine_hypotheses_satisfiable :
+  (1, 0, 0) <> ((0, 0, 0) : V3) /\ Forall (tet_guard_off ex_v) ex_ts /\ tet_nondeg ex_v ex_ts /\
+  Forall (affine_on_tet ex_v (1, 0, 0) 0 (vfun Rops [0; 1; 0; 0])) ex_ts.
+Proof. split; [exact ex_dir|]. split; [exact ex_guard|]. split; [exact ex_nondeg|exact ex_affine]. Qed.
+
